@@ -215,6 +215,9 @@ func (c *Chain) buildEBlock(chain factom.Bytes32, h uint32, entries []Entry) (ke
 		}
 		cur = m
 		raw := marshalEntry(chain, e)
+		if len(raw) > factom.EntryMaxTotalLen {
+			return keyMR, nil, fmt.Errorf("fake: entry of %d bytes cannot exist on Factom", len(raw))
+		}
 		eh := factom.ComputeEntryHash(raw)
 		c.raw[eh] = raw
 		hashes = append(hashes, eh)
